@@ -24,7 +24,8 @@ func init() {
 		Explanation: "Decides the wiring of version-restricted reporting: the role (minimum/maximum × language/stdlib) of every Options version field is derived from the comparison that drops the diagnostic in report.Report, and each exported option constructor must store into the field whose role its name promises (R20.1); " +
 			"the -go flag value reaches types.Config.GoVersion and the cache key, and the module's go directive is used on the default path (R20.2); " +
 			"FileVersions is enabled and is what LanguageVersion returns (R20.3); the decision table of code.StdlibVersion is enumerated over all orderings of (module version, go1.21, file tag) by abstract evaluation of its SSA CFG and compared with the documented table (R20.4). " +
-			"It does NOT decide go/types' own FileVersions logic or what individual checks pass as bounds.",
+			"It does NOT decide go/types' own FileVersions logic or what individual checks pass as bounds." +
+			" Also decided: StdlibVersion takes a file's own version from the raw //go:build tag (ast.File.GoVersion), not from the type checker's clamped FileVersions.",
 		RuleText:    "obligation = (rule, construct); R20.4 enumerates the finite set of orderings the function can distinguish (exhaustive for that function)",
 		Assumptions: []string{"go/version.Compare returns -1/0/+1 with the documented meaning", "go/types fills Info.FileVersions from //go:build constraints and Config.GoVersion"},
 		Run:         runC20,
